@@ -17,7 +17,7 @@ import time
 
 from harness.corr import journal_lib as lib
 
-PROPERTIES = ["C08", "C06"]
+PROPERTIES = ["C08", "C06", "C11"]
 ORDER = 50
 
 U32, U64 = lib.U32, lib.U64
